@@ -213,10 +213,15 @@ def _main(args, pid, tier, seed, t0, mod, builds, scratch):
                 continue
             status, res, prog, tail, wall = run_worker(cur, scratch, cur.get("timeout", unit_timeout))
             if status in ("timeout", "exit17"):
-                # hang policy: find the case, re-run it alone with a larger limit
+                # hang policy: find the case, re-run it alone. Alone, only the worker's own no-progress watchdog
+                # (exit 17: not one bounded piece of work completed in case_timeout seconds) confirms a hang; the
+                # generous outer wall-clock limit firing while the case still makes progress is inconclusive.
                 if cur.get("alone"):
-                    out.append(("hang", cur, tail))
-                    hang_confirmed.append(cur["uid"])
+                    if status == "exit17":
+                        out.append(("hang", cur, tail))
+                        hang_confirmed.append(cur["uid"])
+                    else:
+                        out.append(("fault", cur, "case still making progress after %ss alone (slow, not hung): inconclusive\n%s" % (cur.get("timeout"), tail)))
                     continue
                 if prog is None or "cases" not in cur:
                     out.append(("fault", cur, "unit timed out without progress information\n" + tail))
@@ -225,8 +230,8 @@ def _main(args, pid, tier, seed, t0, mod, builds, scratch):
                 one = dict(cur)
                 one["cases"] = [prog, prog + 1]
                 one["alone"] = True
-                one["timeout"] = cur.get("alone_timeout", 90)
-                one["case_timeout"] = one["timeout"] + 30
+                one["case_timeout"] = cur.get("alone_timeout", 90)
+                one["timeout"] = max(1500, 10 * one["case_timeout"])
                 one["uid"] = "%s_h%d" % (cur["uid"], prog)
                 todo.append(one)
                 if prog > a:
@@ -276,7 +281,7 @@ def _main(args, pid, tier, seed, t0, mod, builds, scratch):
                     "oracle": "termination",
                     "mechanism": "hang",
                     "build": u["build"],
-                    "detail": "case did not finish within %ss when re-run alone" % u.get("timeout"),
+                    "detail": "re-run alone, the case completed no bounded piece of work (program run / sequence / cell) for %ss" % u.get("case_timeout"),
                     "case": {"unit": {k: v for k, v in u.items() if k not in ("build_dir", "progress")}},
                     "stacks": payload[-2500:],
                 }
